@@ -380,6 +380,25 @@ func SplitSweep(w *bufio.Writer, maxLen int, rng *rand.Rand) map[string]int {
 	for n := 14; n <= maxLen; n++ {
 		rec(n, 0)
 	}
+	// long runs of one byte (a split must terminate whatever the bytes are)
+	for _, fill := range []byte{0x80, 0xbf, 0xc3, 0xe3, 0xff, 'a', ' ', '.', ','} {
+		for _, n := range []int{460, 900} {
+			for _, sl := range []int{13, 450} {
+				text := strings.Repeat(string([]byte{fill}), n)
+				done := make(chan []string, 1)
+				go func() { done <- client.VerifSplitMessage(text, sl) }()
+				select {
+				case ps := <-done:
+					res["texts"]++
+					log(text, sl, ps)
+				case <-time.After(3 * time.Second):
+					// does not terminate: recorded as a split into no pieces at all (rejected by SplitOK)
+					res["nonterminating"]++
+					log(text, sl, []string{})
+				}
+			}
+		}
+	}
 	return res
 }
 
